@@ -11,7 +11,7 @@
     - A finished reader returns end of input from every later [next] / [read_record_set]:
       no panic, no truncated or fabricated record after the error.
     Statements only; proofs are in Proofs/FinalErrP.v (and SeqLinesP.v for the sticky end). *)
-From SeqIO Require Import Model.Base Model.Fasta Model.Fastq Proofs.SeqLinesP Proofs.FaultP Proofs.FinalErrP.
+From SeqIO Require Import Model.Base Model.Fasta Model.Fastq Proofs.SeqLinesP Proofs.TraceP Proofs.FaultP Proofs.FinalErrP.
 
 (* ================================================================== *)
 (** * FASTA *)
@@ -21,7 +21,8 @@ Theorem C06_fa_seek_io_error_cases : forall ffuel r line byte_ r' k,
   (* the source seek failed: only source and log changed *)
   (log r' = EvSeek byte_ (Some k) :: log r /\ r' = set_log (set_src r (src r')) (log r')) \/
   (* the refill after the seek failed: the reader is finished *)
-  (exists off rest, log r' = EvRead off (RFailed k) :: rest ++ EvSeek byte_ None :: log r /\ st r' = FFinished).
+  (exists off rest, log r' = EvRead off (RFailed k) :: rest ++ EvSeek byte_ None :: log r /\
+                    st r' = FFinished /\ buf r' = []).
 Proof. exact fa_seek_io_state. Qed.
 Print Assumptions C06_fa_seek_io_error_cases.
 
@@ -47,7 +48,7 @@ Print Assumptions C06_fa_read_set_io_error_state.
 
 (** the error raised inside the search loop is final *)
 Theorem C06_fa_resume_io_error_finishes : forall ffuel mk fuel r r' k,
-  fa_resume fuel ffuel mk r = (r', RsErr (FaIo k)) -> st r' = FFinished.
+  fa_resume fuel ffuel mk r = (r', RsErr (FaIo k)) -> st r' = FFinished /\ buf r' = [].
 Proof. exact fa_resume_io_state. Qed.
 Print Assumptions C06_fa_resume_io_error_finishes.
 
@@ -85,7 +86,8 @@ Print Assumptions C06_fa_read_set_finished_sticky.
 Theorem C06_fq_seek_io_error_cases : forall ffuel r line byte_ r' k,
   fq_seek ffuel r line byte_ = (r', QOErr (FqIo k)) ->
   (qlog r' = EvSeek byte_ (Some k) :: qlog r /\ r' = qset_log (qset_src r (qsrc r')) (qlog r')) \/
-  (exists off rest, qlog r' = EvRead off (RFailed k) :: rest ++ EvSeek byte_ None :: qlog r /\ qst r' = QFinished).
+  (exists off rest, qlog r' = EvRead off (RFailed k) :: rest ++ EvSeek byte_ None :: qlog r /\
+                    qst r' = QFinished /\ qbuf r' = []).
 Proof. exact fq_seek_io_state. Qed.
 Print Assumptions C06_fq_seek_io_error_cases.
 
@@ -110,7 +112,7 @@ Proof. exact fq_read_set_io_state. Qed.
 Print Assumptions C06_fq_read_set_io_error_state.
 
 Theorem C06_fq_resume_io_error_finishes : forall ffuel mk fuel s r r' k,
-  fq_resume fuel ffuel s mk r = (r', QrErr (FqIo k)) -> qst r' = QFinished.
+  fq_resume fuel ffuel s mk r = (r', QrErr (FqIo k)) -> qst r' = QFinished /\ qbuf r' = [].
 Proof. exact fq_resume_io_state. Qed.
 Print Assumptions C06_fq_resume_io_error_finishes.
 
@@ -134,6 +136,50 @@ Theorem C06_fq_read_set_finished_sticky : forall fuel ffuel n r rs,
   qst r = QFinished -> fq_read_set fuel ffuel n r rs = (r, rs, QONone).
 Proof. exact fq_read_set_finished_sticky. Qed.
 Print Assumptions C06_fq_read_set_finished_sticky.
+
+(* ================================================================== *)
+(** * the incomplete buffer is dropped; a later seek cannot position into it *)
+
+(** after an I/O error from a failed refill the buffer is empty: [next] / [read_record_set]
+    (the reader is either still [New] -- error in the initialisation, buffer kept, call
+    repeatable -- or finished with an empty buffer); for [seek] see the [..._io_error_cases] above *)
+Theorem C06_fa_next_io_error_drops_buffer : forall fuel ffuel r r' k,
+  fa_next fuel ffuel r = (r', OErr (FaIo k)) ->
+  (st r = FNew /\ st r' = FNew) \/ (st r' = FFinished /\ buf r' = []).
+Proof. exact fa_next_io_buffer. Qed.
+Print Assumptions C06_fa_next_io_error_drops_buffer.
+
+Theorem C06_fa_read_set_io_error_drops_buffer : forall fuel ffuel n r rs r' rs' k,
+  fa_read_set fuel ffuel n r rs = (r', rs', OErr (FaIo k)) ->
+  (st r = FNew /\ st r' = FNew) \/ (st r' = FFinished /\ buf r' = []).
+Proof. exact fa_read_set_io_buffer. Qed.
+Print Assumptions C06_fa_read_set_io_error_drops_buffer.
+
+Theorem C06_fq_next_io_error_drops_buffer : forall fuel ffuel r r' k,
+  fq_next fuel ffuel r = (r', QOErr (FqIo k)) ->
+  (qst r = QNew /\ qst r' = QNew) \/ (qst r' = QFinished /\ qbuf r' = []).
+Proof. exact fq_next_io_buffer. Qed.
+Print Assumptions C06_fq_next_io_error_drops_buffer.
+
+Theorem C06_fq_read_set_io_error_drops_buffer : forall fuel ffuel n r rs r' rs' k,
+  fq_read_set fuel ffuel n r rs = (r', rs', QOErr (FqIo k)) ->
+  (qst r = QNew /\ qst r' = QNew) \/ (qst r' = QFinished /\ qbuf r' = []).
+Proof. exact fq_read_set_io_buffer. Qed.
+Print Assumptions C06_fq_read_set_io_error_drops_buffer.
+
+(** with an empty buffer no target is "inside the buffer": [seek] never takes the in-buffer
+    shortcut, it calls the source's seek (logs an [EvSeek] event) for EVERY target *)
+Theorem C06_fa_seek_after_refill_error_reads_again : forall ffuel r line byte_, buf r = [] ->
+  exists added, log (fst (fa_seek ffuel r line byte_)) =
+                added ++ EvSeek byte_ (snd (src_seek (src r) byte_)) :: log r.
+Proof. exact fa_seek_empty_buffer_seeks_source. Qed.
+Print Assumptions C06_fa_seek_after_refill_error_reads_again.
+
+Theorem C06_fq_seek_after_refill_error_reads_again : forall ffuel r line byte_, qbuf r = [] ->
+  exists added, qlog (fst (fq_seek ffuel r line byte_)) =
+                added ++ EvSeek byte_ (snd (src_seek (qsrc r) byte_)) :: qlog r.
+Proof. exact fq_seek_empty_buffer_seeks_source. Qed.
+Print Assumptions C06_fq_seek_after_refill_error_reads_again.
 
 (* ================================================================== *)
 (** * non-vacuity *)
@@ -179,3 +225,24 @@ Example C06_fq_next_io_example :
   let r0 := fq_new 4 (mkSource c14_fq_input 0 [RFailI 6] []) pol_std in
   snd (fq_next 30 30 r0) = QOErr (FqIo 6) /\ qst (fst (fq_next 30 30 r0)) = QNew.
 Proof. vm_compute. repeat split; reflexivity. Qed.
+
+(** after the failed refill in mid-record the buffer is empty; a seek back to the first
+    record (byte 0, which WAS in the buffer before the error) goes to the source and the
+    reader delivers the records again *)
+Example C06_fa_seek_after_refill_error_example :
+  let r1 := fst (fa_next 30 30 (fa_new 9 (mkSource c14_fa_input 0 [RDeliver 9; RFailI 4] []) pol_std)) in
+  let r2 := fst (fa_next 30 30 r1) in
+  snd (fa_next 30 30 r1) = OErr (FaIo 4) /\ buf r2 = [] /\ st r2 = FFinished /\
+  let c := fa_seek 30 r2 1 0 in
+  snd c = OOk /\ new_events (log (fst c)) (log r2) = [EvRead 9 (RData 9); EvSeek 0 None] /\
+  (exists rc, snd (fa_next 30 30 (fst c)) = ORec rc).
+Proof. vm_compute. repeat split; try reflexivity. eexists; reflexivity. Qed.
+
+Example C06_fq_seek_after_refill_error_example :
+  let r1 := fst (fq_next 30 30 (fq_new 12 (mkSource c14_fq_input 0 [RDeliver 11; RFailI 4] []) pol_std)) in
+  let r2 := fst (fq_next 30 30 r1) in
+  snd (fq_next 30 30 r1) = QOErr (FqIo 4) /\ qbuf r2 = [] /\ qst r2 = QFinished /\
+  let c := fq_seek 30 r2 1 0 in
+  snd c = QOOk /\ hd_error (rev (new_events (qlog (fst c)) (qlog r2))) = Some (EvSeek 0 None) /\
+  (exists rc, snd (fq_next 30 30 (fst c)) = QORec rc).
+Proof. vm_compute. repeat split; try reflexivity. eexists; reflexivity. Qed.
